@@ -160,3 +160,15 @@ A(M("c17e-r5-defaultdict-list-unsorted", "C17", CF, rule="report-loops", edits=[
 A(M("c17-r5-fallback-merged-filter-unrecognised", "C17", CF, "    kdtree = KDTree(coordinates)\n", "    kdtree = KDTree(coordinates)\n    del coordinates\n", kind="unrecognised", **R5))
 A(M("c17-fallback-keyword-call-silent", "C17", CF, kind="silent", edits=[KW_CALL, ("    args = parser.parse_args()\n", "    args = parser.parse_args()\n    del parser\n")]))
 A(M("c17-fallback-keyword-call-crossed", "C17", CF, rule="cli-arguments", edits=[(KW_CALL[0], KW_CALL[1].replace("ignore_occupancy=args.ignore_occupancy", "ignore_occupancy=args.ignore_autoclashes").replace("ignore_autoclashes=args.ignore_autoclashes", "ignore_autoclashes=args.ignore_occupancy")), ("    args = parser.parse_args()\n", "    args = parser.parse_args()\n    del parser\n")]))
+
+# ---------------------------------------------------------------------------------------------------------------------
+# the nucleotide filter moved from the collection loop into the clash loop: decided by the table (both residues must be
+# nucleotides), its conditions are features of the definition
+TAKE_ALL = ("        if (\n            nucleic_acid_only is True and residue.is_nucleotide\n        ) or nucleic_acid_only is False:\n            for atom in residue.atoms:", "        if True:\n            for atom in residue.atoms:")
+AUTO = "        if ignore_autoclashes is True and ri == rj:\n"
+A(M("c17e-nucleotide-filter-in-pair-loop-silent", "C17", CF, kind="silent", edits=[TAKE_ALL, (AUTO, "        if nucleic_acid_only is True and not (ri.is_nucleotide and rj.is_nucleotide):\n            continue\n" + AUTO)]))
+A(M("c17e-nucleotide-filter-in-pair-loop-one-sided", "C17", CF, rule="collection", edits=[TAKE_ALL, (AUTO, "        if nucleic_acid_only is True and not ri.is_nucleotide:\n            continue\n" + AUTO)]))
+A(M("c17e-nucleotide-filter-in-pair-loop-either", "C17", CF, rule="collection", edits=[TAKE_ALL, (AUTO, "        if nucleic_acid_only is True and not (ri.is_nucleotide or rj.is_nucleotide):\n            continue\n" + AUTO)]))
+# a de-duplication keyed by residues and atom names drops alternate conformations (same name, same residue): an additional filter
+A(M("c17e-dedupe-by-atom-names", "C17", CF, rule="option-extra-filter", edits=[("    result = []\n", "    result = []\n    seen = set()\n"), ("        distance = np.linalg.norm(ai.coordinates - aj.coordinates)\n", "        key = (ri, ai.name, rj, aj.name)\n        if key in seen:\n            continue\n        seen.add(key)\n        distance = np.linalg.norm(ai.coordinates - aj.coordinates)\n")]))
+A(M("c17e-csv-sum-is-residue-maximum", "C17", CF, "                                    occupancy,\n                                    classify_clash", "                                    max_occupancy_residues[(ri, rj)],\n                                    classify_clash", "report-clashes"))
